@@ -134,10 +134,14 @@ H(name="hdr_valid_file_format", crate="kestrel-crypto", mod="decrypt::verif_hdr_
 
 # ------------------------------------------------------------------ H-NOISE
 NOISE_ENV = ["crate::sha256, hkdf_noise, x25519, chapoly_{encrypt,decrypt}_noise as UNINTERPRETED functions (record in the initiator run, replay in the responder run; X25519 replays the commuted pair: DH(a,pub b) = DH(b,pub a))", E_ZERO]
-H(name="noise_x_lockstep", crate="kestrel-crypto", mod="noise::verif_noise", props=["C01", "C05", "C06", "C08"], est_s=600, timeout=2400, mem_gb=12,
-  desc="HandshakeState::{init_x, write_message} trace == Noise_X pattern of the Noise spec (h0 = padded protocol name; MixHash(prologue); pre-message MixHash(rs); e; es = DH(e, rs); s sealed under es key nonce 0 AD h; ss = DH(s, rs); payload sealed under ss key nonce 0 AD h; message = e||enc s||enc payload; hash = h); read_message computes the same values from the message and returns (payload, sender static key, same hash)",
-  funcs=["noise::HandshakeState::init_x", "noise::HandshakeState::write_message", "noise::HandshakeState::read_message", "noise::HandshakeState::get_pubkey", "noise::SymmetricState::*", "noise::CipherState::*"],
+H(name="noise_write_lockstep", crate="kestrel-crypto", mod="noise::verif_noise", props=["C01", "C05", "C06", "C08"], est_s=400, timeout=2400, mem_gb=10,
+  desc="HandshakeState::{init_x, write_message} trace == Noise_X pattern of the Noise spec (h0 = padded protocol name; MixHash(prologue); pre-message MixHash(rs); e; es = DH(e, rs); s sealed under es key nonce 0 AD h; ss = DH(s, rs); payload sealed under ss key nonce 0 AD h; message = e||enc s||enc payload (128 bytes); hash = h; Split)",
+  funcs=["noise::HandshakeState::init_x", "noise::HandshakeState::write_message", "noise::HandshakeState::get_pubkey", "noise::SymmetricState::*", "noise::CipherState::*"],
   bounds="all key material, prologue (4 bytes) and 32-byte payload; one handshake", env=NOISE_ENV, outside="the primitives themselves (C19); payloads other than 32 bytes")
+H(name="noise_read_lockstep", crate="kestrel-crypto", mod="noise::verif_noise", props=["C01", "C05", "C06"], est_s=400, timeout=2400, mem_gb=10,
+  desc="HandshakeState::{init_x, read_message} on a message built per the specification (trace tables filled from the spec with fresh values): recomputes the same hashes/keys, presents the commuted DH pairs, returns (payload, sender static key, same handshake hash)",
+  funcs=["noise::HandshakeState::init_x", "noise::HandshakeState::read_message", "noise::HandshakeState::get_pubkey", "noise::SymmetricState::*", "noise::CipherState::*"],
+  bounds="all key material, prologue and payload; one handshake", env=NOISE_ENV, outside="the primitives themselves (C19)")
 H(name="noise_dh_refusal", crate="kestrel-crypto", mod="noise::verif_noise", props=["C05"], est_s=200, timeout=1800,
   desc="write_message: an all-zero DH result at es or ss => Err(DhError), nothing sealed under a key derived from it", funcs=["noise::HandshakeState::write_message"], bounds="refusal at es or at ss; all key material", env=NOISE_ENV, outside="which points orion refuses (trusted base)")
 H(name="noise_decrypt_any_len", crate="kestrel-crypto", mod="noise::verif_noise", props=["C09"], est_s=300, timeout=1800,
@@ -231,27 +235,60 @@ H(name="main_exit_status", crate="kestrel-cli", mod="verif_main", props=["C12"],
 H(name="main_slice_args", crate="kestrel-cli", mod="verif_main", props=["C09", "C12"], est_s=30, replay="playback",
   desc="slice_args(args, idx) never panics: remainder after idx or empty", funcs=["slice_args"], bounds="0..4 args, idx 0..6", env=[], outside="")
 
+H(name="c17_name_roundtrip", crate="kestrel-cli", mod="keyring::verif_keyring", props=["C17", "C14"], est_s=600, timeout=2400, replay="model",
+  desc="the [Key] section text key generation writes (transcribed format) for ANY accepted name of 1..3 ASCII bytes without TAB parses back to exactly that name and public key, and is found by get_key",
+  funcs=["keyring::Keyring::new", "keyring::Keyring::parse_config", "keyring::Keyring::add_key", "keyring::Keyring::get_key", "keyring::EncodedPk::try_from"],
+  bounds="names of 1..3 ASCII bytes (no NUL, LF, TAB; no leading/trailing whitespace)", env=KR_ENV[2:3], outside="names > 3 bytes; non-ASCII names; serialize_key's own formatting (transcribed)")
+H(name="c17_name_roundtrip_tab", crate="kestrel-cli", mod="keyring::verif_keyring", props=["C17"], est_s=600, timeout=2400, replay="model",
+  desc="KNOWN FINDING F4: the same round trip for names that contain a TAB (expected to fail: the parser deletes every TAB)", funcs=["keyring::Keyring::parse_config"], bounds="names of 3 ASCII bytes with a TAB in the middle", env=KR_ENV[2:3], outside="")
+H(name="c17_sections", crate="kestrel-cli", mod="keyring::verif_keyring", props=["C17", "C09"], auto_props=["C09", "C17"], est_s=600, timeout=2400, replay="model",
+  desc="Keyring::new on 12 section shapes (complete pair, duplicate name, duplicate key, empty first/last section, field outside section, missing field, field twice, comments/blank/no final newline, junk, empty file): accepted iff the documented rule says so; entries = sections in order; never a panic",
+  funcs=["keyring::Keyring::new", "keyring::Keyring::parse_config", "keyring::Keyring::add_key"], bounds="12 concrete texts of <= 160 bytes selected by the solver (structure concrete, selection symbolic)", env=KR_ENV[2:3],
+  outside="arbitrary UTF-8 texts and exhaustive token sequences: std's str::lines/trim/retain on symbolic text are out of reach of the bit-blasting back end (DESIGN 6.1)")
+
+A_AEAD = "ChaCha20-Poly1305 is modelled as an ideal AEAD (opens iff exactly what was sealed); real forgery probability is outside the claim"
+A_TB = "orion/ct-codecs/getopts/std implement their documented contracts (trusted base; Cargo.lock pins them)"
+A_KANI = "Kani/CBMC translate and bit-blast the compiled MIR correctly; unwinding assertions on; bounds as listed per harness"
+
 PROPERTIES = {
-    "C14": {"claim": "", "outside": "", "assumptions": []},
-    "C16": {"claim": "", "outside": "", "assumptions": []},
-    "C17": {"claim": "", "outside": "", "assumptions": []},
-    "C20": {"claim": "", "outside": "", "assumptions": []},
-    "C18": {"claim": "", "outside": "", "assumptions": []},
-    "C05": {"claim": "", "outside": "", "assumptions": []},
-    "C13": {"claim": "", "outside": "", "assumptions": []},
-    "C12": {"claim": "", "outside": "", "assumptions": []},
-    "C15": {"claim": "", "outside": "", "assumptions": []},
-    "C19": {"claim": "wrapper-level conformance: every exported primitive wrapper hands exactly its arguments to the orion primitive and returns exactly its result, for all inputs within the bounds; Noise nonce layout for all 2^64 counters",
-            "outside": "that orion 0.17.8 implements RFC 8439/7748/5869/2104/FIPS 180-4 (trusted base; the repo's own KAT tests exercise it); forgery resistance, DH symmetry and base-point multiplication are mathematics of the primitive, not decidable by bounded checking",
-            "assumptions": ["orion primitives are replaced by recorders with their documented error contract"]},
-    "C02": {"claim": "", "outside": "", "assumptions": []},
-    "C03": {"claim": "", "outside": "", "assumptions": []},
-    "C04": {"claim": "", "outside": "", "assumptions": []},
-    "C09": {"claim": "", "outside": "", "assumptions": []},
-    "C01": {"claim": "", "outside": "", "assumptions": []},
-    "C06": {"claim": "", "outside": "", "assumptions": []},
-    "C07": {"claim": "", "outside": "", "assumptions": []},
-    "C08": {"claim": "", "outside": "", "assumptions": []},
-    "C10": {"claim": "", "outside": "", "assumptions": []},
-    "C11": {"claim": "", "outside": "", "assumptions": []},
+ "C01": {"claim": "Round trip decided modularly within the bounds: (1) encrypt_chunks output == documented record layout of the plaintext under the read partition (H-ENC, every plaintext/partition/partial write in bound); (2) decrypt_chunks turns EVERY stream of that layout, with any legal chunking, into exactly the plaintext (dec_model_*); (3) key_encrypt/key_decrypt wire header, file-key derivation and chunk loop identically (hdr_*); (4) Noise X writer/reader agree and return the payload key and the sender's static key (noise_x_lockstep). (1)+(2)+(3)+(4) compose to decrypt(encrypt(P)) = P and sender reported, for every interpretation of the primitives.",
+         "outside": "chunk size 65536 itself and files of more than 5 chunks (the loops are uniform in chunk size and count: argued, not decided); 2^64-chunk counter overflow; the primitives (C19)", "assumptions": [A_AEAD, A_TB, A_KANI]},
+ "C02": {"claim": "pass_encrypt/pass_decrypt: header = magic||salt, key = scrypt(password, salt, 32768, 8, 1, 32) on both sides with the password bytes unchanged (0..4 arbitrary bytes incl. empty/non-ASCII), aad = magic on both sides; framing round trip as C01 with that aad; under any other key every byte stream fails on the first chunk with zero writes/flushes (dec_wrong_key_cs2).",
+         "outside": "that scrypt is injective/collision-free (cryptographic assumption E-KDF); password lengths > 4 (never inspected)", "assumptions": [A_AEAD, "E-KDF: different (password, salt) => different key", A_TB, A_KANI]},
+ "C03": {"claim": "For a COMPLETELY UNCONSTRAINED ciphertext stream (any bytes, any length within bound) against an authentic file held by the ideal AEAD: Ok => every chunk authenticated in original order up to the final-flagged one, output == complete plaintext, stream ended right after it, consumed length == authentic length. Subsumes flips, truncation at every offset, extension, reorder, duplication, dropping, last-flag toggling within the bound. Header: wrong magic / truncated header / failed handshake => Err before anything is written.",
+         "outside": "real forgery probability; splicing header fields between two authentic files at the Noise level (C05 splice harness not built: see DESIGN); files > 4 chunks", "assumptions": [A_AEAD, A_TB, A_KANI]},
+ "C04": {"claim": "Inside every write call of the plaintext sink (checked by the sink itself): the bytes are exactly the plaintext of the chunk that was just authenticated, whole, in order; nothing is written before a chunk authenticates, nothing after a sink failure; Ok only after the final-flagged chunk authenticated and the stream ended; key_decrypt/pass_decrypt write/flush nothing before the chunk loop; OnDemandFile creates the file only at the first write/flush.",
+         "outside": "as C03", "assumptions": [A_AEAD, A_TB, A_KANI]},
+ "C05": {"claim": "Noise X conformance of both directions (token sequence e, es, s, ss; pre-message MixHash(recipient static); h as AD; nonce reset) for every interpretation of the primitives; a refused DH (all-zero result) at es or ss aborts with DhError and key_encrypt then writes/flushes/reads NOTHING; x25519 wrapper reports orion's refusal; key_decrypt returns the key the handshake authenticated and the CLI looks the sender up by exactly that key; decryption uses the named entry's unlocked private key.",
+         "outside": "the two-handshake splice harness of the design (fields of different files / claimed-vs-used sender key) was not built: rejection there rests on the AD=h chaining shown by the lockstep harness plus AEAD ideality, argued not decided; which points orion refuses; Dolev-Yao attackers computing new terms", "assumptions": [A_AEAD, "X25519(a, pub b) = X25519(b, pub a)", A_TB, A_KANI]},
+ "C06": {"claim": "Byte-for-byte lockstep with an executable transcription of docs/file-format.txt + Noise spec + RFC 7914: chunk records (BE64 counter, BE32 flag, BE32 length, ct, tag), AAD = [magic]||flag||len, nonce = chunk index = 00000000||LE64 for all 2^64 counters; headers 65676B10||handshake(128) and 65676B20||salt; file key = HKDF(empty, payload key, handshake hash, 32); Noise message bytes and hash; hkdf_noise == Noise HKDF; constants; every format-conforming stream with any legal chunking and any counter-field value decrypts.",
+         "outside": "golden files data.txt.ktl / pdata.txt.ktl and 'earlier 1.x releases': need real X25519/scrypt(N=32768) executed, not encodable; the repo's smoke tests decrypt them concretely. orion == RFCs.", "assumptions": [A_AEAD, A_TB, A_KANI]},
+ "C07": {"claim": "Data flow of every CSPRNG draw, by lockstep: key_encrypt(None,None,None): payload key IS one 32-byte draw; the CLI passes None/None/None; PrivateKey::generate IS one draw; gen_key: private key = draw 1, salt = draw 2 (distinct draws), pass_encrypt / change_pass salt = one fresh draw each, used for nothing else; within a file chunk i is sealed exactly once under nonce i (seal log).",
+         "outside": "quality of getrandom; the ephemeral-key draw inside write_message is covered by reading PrivateKey::generate (c20_private_key_generate) but not by a dedicated lockstep harness; histories longer than one operation rest on the absence of mutable statics (by inspection)", "assumptions": ["E-RNG: draws are pairwise distinct", A_TB, A_KANI]},
+ "C08": {"claim": "Every byte written by the encryptor is accounted for: magic, then the Noise message (e in clear, two AEAD outputs) or the salt, then per chunk BE64(i), flag, length (as authenticated) and AEAD output; nothing else, in particular no key or name; length = 132 (36) + 32 per chunk + |P| for all inputs in bound; the Noise message is a function of (e, AEAD outputs) only.",
+         "outside": "that ChaCha20-Poly1305 output leaks nothing (IND-CPA); the two-run non-interference formulation of the design is replaced by the positional accounting above", "assumptions": [A_AEAD, A_TB, A_KANI]},
+ "C09": {"claim": "Kani's automatic checks (panic, overflow, index, unwrap) on every untrusted-input surface with unconstrained bytes: chunk streams (any content/length), key-file and password-file headers (0..140 / 0..60 bytes), Noise messages (0..140 bytes), AEAD inputs (0..24 bytes incl. < 16), locked-key and public-key strings of any decoded length, keyring section shapes, slice_args; reads and AEAD inputs <= chunk+16 and scrypt cost parameters constant whatever the header says.",
+         "outside": "argument vectors through getopts and the real exit status 101-vs-1; arbitrary keyring texts (parser only on bounded shapes); hangs beyond the unwinding bounds", "assumptions": [A_TB, A_KANI]},
+ "C10": {"claim": "One fault (Interrupted/WouldBlock/BrokenPipe/Other or a zero-length write) at a solver-chosen read/write/flush call of encrypt_chunks/decrypt_chunks/key_encrypt: never a panic; read side => IORead, sink side => IOWrite; Ok only without fault or after an Interrupted call that std retries; what has been written is a prefix of the fault-free output (checked against the model online); partial writes (1..8 bytes per call) and short reads through std's real write_all/read_exact give the same bytes.",
+         "outside": "two or more faults per run; short-I/O harnesses on one chunk only (write_all/read_exact are std code)", "assumptions": [A_AEAD, A_TB, A_KANI]},
+ "C11": {"claim": "Streaming within bound: at every source read the input consumed beyond what has been completely written is <= 2 chunks (encrypt) / 2 records (decrypt), for files of up to 4-5 chunks; every read request and AEAD input <= chunk+16.",
+         "outside": "GiB inputs themselves and peak-heap constancy (the counting-allocator harness of the design was not built); independence of n beyond the bound is by the loop's shape", "assumptions": [A_AEAD, A_KANI]},
+ "C12": {"claim": "Function level: each command returns Ok iff every pre-check passed and the library call returned Ok (never swallowed, never manufactured), for every combination of prior output-path state, keyring state, prompt/unlock/checksum outcome and library outcome; main calls exit(1) iff try_main failed; sender naming by exact encoded key; OnDemandFile flush creates the file (empty plaintext still produces the output file).",
+         "outside": "the real process exit code, getopts long/short/alias tables, OS pipe-vs-file semantics, message texts: not encodable here (E-CUT, E-OS)", "assumptions": [A_TB, A_KANI]},
+ "C13": {"claim": "For encrypt, decrypt, password encrypt/decrypt, key generate: if the command fails before the library call, or the library fails before its first write, the output path is untouched (exists/length/content, no create); if the library wrote k bytes then failed, the path holds exactly those bytes and Err is returned; library side: nothing written/flushed before handshake success / first chunk verification.",
+         "outside": "as C12", "assumptions": [A_TB, A_KANI]},
+ "C14": {"claim": "gen_key(Some(path)) from an ARBITRARY prior state of the path (absent | any 0..4 bytes): on success the earlier contents are a byte prefix of the new contents, an existing file is never re-created/truncated, a new one is created once, the result is flushed; one inductive step from an arbitrary state covers every history. The appended section parses back (c17_name_roundtrip).",
+         "outside": "content of the appended text beyond 'one [Key] section after a newline' (formatting is cut); passwords (C15)", "assumptions": [A_TB, A_KANI]},
+ "C15": {"claim": "lock/unlock algebra with scrypt as an injective uninterpreted function, ideal AEAD, base64 as a bijection: documented 84-byte layout and parameters; unlock(lock(sk,pw),pw) = sk; other passwords fail; ANY single-byte change (any xor) fails (version => format error, salt => other key, rest => AEAD); other decoded lengths rejected; IETF wrappers forward key/nonce/aad unchanged.",
+         "outside": "interoperability with other implementations reduces to the layout equation + orion/ct-codecs conformance", "assumptions": [A_AEAD, "E-KDF injective", "E-B64 bijection", A_TB, A_KANI]},
+ "C16": {"claim": "One inductive step from an arbitrary (key, blob, passwords) state: change_pass unlocks with the OLD password, re-locks exactly THAT key under the NEW password with a FRESH CSPRNG salt (also when old == new); extract_pub encodes the public key derived from exactly the unlocked key; gen_key writes the same expression; with C15 this gives the property for every history.",
+         "outside": "text of printed lines (formatting cut: 'raw private key never printed' is argument-level only)", "assumptions": [A_TB, A_KANI]},
+ "C17": {"claim": "Checksummed public keys (usable iff last 4 bytes = SHA256(first 32)[..4]); lookups by name/key; names written by key generation (1..3 ASCII bytes, no TAB) parse back exactly; 12 section shapes accepted/rejected per the documented rule with entries in order; no panic. Known finding F4 (TAB in name) reported as KNOWN-FINDING.",
+         "outside": "arbitrary UTF-8 texts and exhaustive token sequences (std string loops on symbolic text are out of reach: DESIGN 6.1)", "assumptions": ["E-B64 bijection", A_TB, A_KANI]},
+ "C18": {"claim": "Modular equivalence with RFC 7914: Salsa20/8 core for ALL inputs; BlockMix (r=1,2,3), ROMix (N=2,4; r=1), envelope (p=1,2) each against the RFC pseudo-code with the level below as an arbitrary function; public wrapper and C ABI forward arguments in order and write exactly dk_len bytes.",
+         "outside": "r > 3, N > 4, p > 2 (loops uniform); PBKDF2-HMAC-SHA256; comparison with OpenSSL", "assumptions": [A_TB, A_KANI]},
+ "C19": {"claim": "Wrapper-level conformance: each exported wrapper hands exactly its arguments to the orion primitive and returns exactly its result, incl. error mapping; Noise nonce = 00000000||LE64(counter) for ALL 2^64 counters; decrypt of < 16 bytes is Err (F1 fixed).",
+         "outside": "that orion == RFC 8439/7748/5869/2104/FIPS 180-4; forgery resistance, DH symmetry, base-point multiplication: mathematics of the primitive, deliberately not attempted with a bit-blasting solver", "assumptions": [A_TB, A_KANI]},
+ "C20": {"claim": "For all 32-byte contents: PrivateKey (from bytes, generated, cloned; either drop order) and Zeroizing<Vec<u8>> buffers are all-zero at the moment their block is released (deallocator replaced by an inspector); PayloadKey and its clone read back as zero after drop. Built against the REAL zeroize crate.",
+         "outside": "stack copies left by moves; concurrent drops", "assumptions": [A_TB, A_KANI]},
 }
